@@ -8,10 +8,28 @@ under the issuing key and ID, under another key, under another ID, and for singl
 for listed, unlisted, prefix and extension serials."""
 from common import *
 import cryptolib as CL
+from derw import seq, tlv
 import json
 
 DAY = 86400
-EXTS = ["bc_ca", "bc_ca0", "bc_ee", "ku_sign", "ku_ca", "ku_all", "eku", "ski", "aki", "pc"]
+EXTS = ["bc_ca", "bc_ca0", "bc_ee", "ku_sign", "ku_ca", "ku_all", "eku", "ski", "aki", "pc", "crldp", "san9", "ian12"]
+XOID = {"bc": 19, "ku": 15, "eku": 37, "ski": 14, "aki": 35, "pc": 36, "crldp": 31, "san": 17, "ian": 18}
+
+
+def expected_exts(tokens):
+    """what the Extensions must parse back to, from the builder tokens alone: (OID content, critical, value or b'' when the harness does not restate it)"""
+    oids, crit, vals = [], [], []
+    for t in tokens:
+        c = 1 if t.endswith("!") else 0
+        t = t.rstrip("!?")
+        name = next(k for k in sorted(XOID, key=len, reverse=True) if t.startswith(k))
+        oids.append([0x55, 0x1d, XOID[name]]); crit.append(c)
+        if name in ("san", "ian"):
+            nlen = max(1, int(t[3:] or 1))
+            vals.append(list(seq(tlv(0x82, b"a" * nlen))))
+        else:
+            vals.append([])
+    return oids, crit, vals
 
 
 def gen(c):
@@ -50,6 +68,14 @@ def gen(c):
                      icn="526f6f74", icntag=12, iorg="-", exts=",".join(exts) or "-", sid=sid, revoked=",".join("%s:%d:%d" % (x.hex(), r, iv) for x, (r, iv) in zip(revoked, rinfo)) or "-", seed=100 + i)
             add(**o)
             objs.append((o, revoked, rinfo))
+    # extension values whose size walks across the DER length-form switches (127/128, 255/256) -- issued, parsed back, verified; no tamper sweep for these
+    sizes = (list(range(118, 133)) + list(range(246, 262))) if not c.quick else [121, 122, 123, 124, 125, 126, 127, 128, 249, 250, 251, 252, 253, 254, 255, 256]
+    for i, nlen in enumerate(sizes):
+        for tok in ("san%d" % nlen, "ian%d" % nlen):
+            exts = ["ku_sign!", tok + ("!" if i % 2 else "?"), "bc_ee?"]
+            o = dict(kind="cert", serial=serials[i % len(serials)], nb=20000, nbs=0, na=20300, nas=0, cn="414c494345", cntag=12, org="-", icn="526f6f74", icntag=12, iorg="-", exts=",".join(exts), sid=b"", revoked="-", seed=700 + i, light=1)
+            add(**o)
+            objs.append((o, [], []))
     return lines, objs, serials
 
 
@@ -67,7 +93,8 @@ def body():
             c.violation(key + ":crash", "driver died / sanitizer report: %s" % san, {"line": line})
             continue
         issue = evs[0]
-        execs.append((key, [dict(e) for e in evs]))
+        xo, xc, xv = expected_exts([t for t in o["exts"].split(",") if t != "-"]) if o["kind"] != "req" else ([], [], [])
+        execs.append((key, [dict(e, xoids=xo, xcrit=xc, xvals=xv) if e["e"] == "Issue" else dict(e) for e in evs]))
         if issue.get("rc") != 1:
             continue
         der = bytes.fromhex(issue["der"])
@@ -81,6 +108,8 @@ def body():
         v("otherkey", der, "other", sid, False, True, False)
         v("otherid", der, "right", sid + b"x", True, False, False)
         v("otherid2", der, "right", b"1234567812345678" if sid != b"1234567812345678" else b"1234567812345679", True, False, False)
+        if o.get("light"):
+            continue
         nbits = len(der) * 8
         bits = range(nbits) if (not c.quick and line["id"] % 10 == 1) else sorted(set([rng.randrange(nbits) for _ in range(40 if c.quick else 200)] + list(range(nbits - 80 * 8, nbits, 7)) + list(range(0, 64))))
         for bit in bits:
